@@ -5,7 +5,7 @@ import rdflib
 from rdflib import BNode, Literal, URIRef
 from rdflib.namespace import RDF
 
-from .. import enc, framework as F, shapes as S, evalcheck as EC
+from .. import enc, framework as F, shapes as S, evalcheck as EC, leaves as LV
 from ..enc import EX, SH
 
 PROP = "C06"
@@ -106,6 +106,34 @@ def main(tier, seed, replay=None):
             if o.get("dataset"):
                 c["data_run"] = to_dataset(b["data"], rng)
             cases.append(c)
+    # every core component (ranges, property pairs, string constraints, closed, ...) in both evaluation modes:
+    # only the well-formedness of the real report is checked for these (no model comparison)
+    for gi in range(n, n + (40 if tier == "quick" else 700)):
+        b = LV.gen_case(rng)
+        if rng.random() < 0.6:
+            # property-pair components have mode-specific evaluators whose verdict flag and result list are kept separately
+            for _try in range(8):
+                if any(cmp[0] in ("equals", "disjoint", "lessthan", "lessthaneq") for sh_ in b["shapes"] for cmp in sh_["comps"]):
+                    break
+                b = LV.gen_case(rng)
+        b["sg"] = S.shapes_to_rdf(b["shapes"])
+        for o in ({}, {"sparql_mode": True}, {"sparql_mode": True, "abort_on_first": True}, {"allow_warnings": True}):
+            cases.append(dict(b, opts=dict(o), group=gi, structural_only=True))
+    # a grid for the property-pair components: one focus node, the value sets of the two properties in every subset relation
+    GRID_PFX = "@prefix sh: <http://www.w3.org/ns/shacl#> . @prefix ex: <http://ex.org/> .\n"
+    rel = {"A subset of B": ([1], [1, 2]), "B subset of A": ([1, 2], [1]), "equal": ([1, 2], [1, 2]), "disjoint": ([1], [2]), "overlap": ([1, 2], [2, 3]), "A empty": ([], [1]), "B empty": ([1], [])}
+    gi = len(cases)
+    for comp in ("equals", "disjoint", "lessThan", "lessThanOrEquals"):
+        for rname, (A, B) in rel.items():
+            for two in (False, True):
+                dttl = GRID_PFX + "".join("ex:a ex:p %d .\n" % v for v in A) + "".join("ex:a ex:q %d .\n" % v for v in B) + "ex:a a ex:T .\n"
+                if two:
+                    dttl += "ex:b a ex:T ; ex:p 1 ; ex:q 1 .\n"   # a second focus node without any discrepancy
+                sgx = rdflib.Graph().parse(data=GRID_PFX + "ex:G a sh:NodeShape ; sh:targetClass ex:T ; sh:property [ sh:path ex:p ; sh:%s ex:q ] ." % comp, format="turtle")
+                dgx = rdflib.Graph().parse(data=dttl, format="turtle")
+                gi += 1
+                for o in ({}, {"sparql_mode": True}, {"sparql_mode": True, "abort_on_first": True}):
+                    cases.append({"shapes": [], "sg": sgx, "data": dgx, "opts": dict(o), "group": gi, "structural_only": True, "nodes": [], "lits": []})
     rep = F.Report(PROP, tier, seed)
     ob = F.coq_build(["Props/C06.v"], extra=EC.EXTRA_VO)
     import pyshacl
@@ -146,7 +174,7 @@ def main(tier, seed, replay=None):
         for msg in structural(c, c["data"], conforms, rg, text):
             complaints.append((i, msg))
         # histogram correspondence with the model's report graph (modes the model covers)
-        if not (set(c["opts"]) & {"advanced", "sparql_mode", "inference"}) and ob.ok:
+        if not (set(c["opts"]) & {"advanced", "sparql_mode", "inference"}) and ob.ok and not c.get("structural_only"):
             I = enc.Interner()
             hist = [len(list(rg.subject_objects(p))) for p in PREDS]
             sgx = ShapesGraph(c["sg"]).graph
@@ -200,7 +228,7 @@ def main(tier, seed, replay=None):
     cov = F.proof_coverage(ob)
     cov.update({
         "evaluations": len(cases), "distinct_nontrivial": stats["nonconforming"],
-        "rule": "case = shapes/data from the evaluator-level generators (nested shapes, templates for qualified siblings, severity mixes, SPARQL components) x 10 option settings (abort_on_first, allow_infos, allow_warnings, advanced, sparql_mode, inference rdfs/owlrl, Dataset input); on every real report: one report node, sh:conforms = verdict = text, text count = #sh:result, verdict <-> all top-level severities waived, every (nested) result well-formed, terms denote terms of the validated graphs, blank-node terms come with their description; non-trivial = non-conforming; for the modes the model covers the per-predicate triple counts and the multiset of result rows (focus, value, source shape, component, severity at every sh:detail depth) are compared with the model's report_graph",
+        "rule": "case = shapes/data from the evaluator-level generators (nested shapes, templates for qualified siblings, severity mixes, SPARQL components) x 10 option settings (abort_on_first, allow_infos, allow_warnings, advanced, sparql_mode, inference rdfs/owlrl, Dataset input); plus shapes over every core component (C01's generator) in default mode and sparql_mode, and a grid of the four property-pair components over every subset relation of the two value sets; on every real report: one report node, sh:conforms = verdict = text, text count = #sh:result, verdict <-> all top-level severities waived, every (nested) result well-formed, terms denote terms of the validated graphs, blank-node terms come with their description; non-trivial = non-conforming; for the modes the model covers the per-predicate triple counts and the multiset of result rows (focus, value, source shape, component, severity at every sh:detail depth) are compared with the model's report_graph",
         "distribution": dict(stats, histogram_cases=len(bodies), model_disagreements=len(failed), structural_complaints=len(complaints)),
         "samples": [{"options": cases[i]["opts"], "shapes_ttl": cases[i]["sg"].serialize(format="turtle")[:1500]} for i in (0, len(cases) // 2)],
     })
